@@ -191,7 +191,8 @@ Definition restr := list (string * option (list string)).
 Record section := {
   s_ar : option restr;        (* None: no restriction (None or {} in the configuration) *)
   s_fail : option bool;       (* fail_on_missing_requested; None = not configured *)
-  s_ecs : list string         (* entity_categories: module names; [] = not configured *)
+  s_ecs : list string;        (* entity_categories: module names; [] = not configured *)
+  s_bare : bool               (* the configured section is an empty dict: compile() leaves it empty (falsy) *)
 }.
 
 (* None = Policy(None); a section mapped to None is a configured `who: None` *)
@@ -211,8 +212,10 @@ Definition applicable (p : policy) (sp : string) (ra : option string) : option s
           match (match ra with Some r => getsec r l | None => None end) with
           | Some s => Some s
           | None =>
+              (* self._restrictions.get("default") or self._restrictions.get(""): an EMPTY "default"
+                 section is falsy and gives way to the "" section *)
               match getsec "default" l with
-              | Some s => Some s
+              | Some s => if s_bare s then (match getsec "" l with Some s' => Some s' | None => Some s end) else Some s
               | None => getsec "" l
               end
           end
